@@ -136,8 +136,23 @@ func c13Build(rng *rand.Rand, sc *c13Scenario, sep string) (sts.Payload, map[str
 		} else {
 			off, ln = c13Slice(rng, size)
 		}
-		b := &hBinnable{name: name, size: size, hash: md5hex(data), off: off, length: ln,
-			time: time.Unix(1600000000+rng.Int63n(1e8), rng.Int63n(1e9))}
+		ft := time.Unix(1600000000+rng.Int63n(1e8), rng.Int63n(1e9))
+		if rng.Intn(6) == 0 {
+			// file times at and beyond the edges: before 1970, outside the range a
+			// nanosecond count can hold (1677..2262), the zero time, whole seconds
+			ft = []time.Time{
+				time.Date(1965, 3, 1, 12, 0, 0, 123456789, time.UTC),
+				time.Unix(0, 0),
+				time.Date(2262, 4, 11, 23, 47, 16, 854775807, time.UTC),
+				time.Date(2300, 1, 1, 0, 0, 0, 500000001, time.UTC),
+				time.Date(2446, 5, 10, 22, 38, 55, 1, time.UTC),
+				time.Date(1601, 1, 1, 0, 0, 0, 999999999, time.UTC),
+				{},
+				time.Unix(1700000000, 0),
+				time.Date(9999, 12, 31, 23, 59, 59, 999999999, time.UTC),
+			}[rng.Intn(9)]
+		}
+		b := &hBinnable{name: name, size: size, hash: md5hex(data), off: off, length: ln, time: ft}
 		if rng.Intn(2) == 0 {
 			b.prev = fmt.Sprintf("%d%sprev%s%s", i, sep, sep, c13Names[rng.Intn(3)])
 			if sep == "\\" {
